@@ -41,6 +41,18 @@ CLAIMED = {
  "C10": dict(tech="postcondition monitor on IntervalSlicer.slice_ over an exhaustively driven edge lattice + random long vectors",
     text="All data vectors up to length 4 (quick) / 5 (thorough) over the half-width lattice for five widths, in every order, times the listed slicer configurations, plus random long rounded vectors: each slice_ call is judged by a monitor (exactly-one membership in the covered range, alignment, boundaries, references, dropped set, RuntimeError rule).",
     note="trusted: numpy comparisons; 'before dropping' is observed by re-running the same configuration with min_n_points=min_n_intervals=0"),
+ "C17": dict(tech="postcondition monitors on calculate_design_conditions and intersection (all bindings) vs brute-force segment arithmetic",
+    text="For IFORM/ISORM/direct-sampling contours of random models and random convex/star-shaped polygons (negative ordinates, several crossings), all steps forms (None, int, float/int lists, ranges, arrays, outside the range) and both swap_axis values, every returned design condition must be a requested crossing abscissa with the largest brute-force ordinate; intersection() must return exactly the brute-force crossings of random polyline pairs.",
+    note="trusted: the harness's own segment arithmetic; general position enforced by the generator; tolerance 1e-9*scale"),
+ "C18": dict(tech="fault injection at the API boundary with a non-faulty control per injection",
+    text="29 kinds of malformation are injected at every applicable dimension/position of valid 1-4-dimensional descriptions (all families as carriers), singly and in pairs; the consuming operation must raise and return nothing, while the control (same description without the fault) must succeed - so 'reject everything' cannot pass.",
+    note="'where supplied' = no later than the first operation consuming the specification; any exception type counts (types are in the evidence)"),
+ "C19": dict(tech="snapshot (OLD) / compare monitors on every public evaluation entry point + history driver over the predefined getters + id-graph walk",
+    text="A deep snapshot of the model (attributes, parameter dicts, dependence-function state, class-level containers) and copies of the caller's arrays are taken before each outermost public evaluation call and compared after it; deterministic calls are repeated; random histories of evaluate/contour/fit-another/re-create/fit-again over the six predefined getters must leave model A and its values unchanged and make fresh fits history-independent; two getter calls must share no mutable node.",
+    note="trusted: the snapshot reaches instance state recursively, closure cells, function defaults and class-level containers of virocon classes"),
+ "C20": dict(tech="save monitor re-reading the written file; recording wrappers on matplotlib Axes.plot/scatter/contour/hist; reader round trip on synthetic files",
+    text="Saved files are re-read (header, row count/order, values to 6 decimals, '.txt' rule) for all six contour classes in 2-D and 3-D with arbitrary semantics and paths; what plot_2D_contour and the other plot functions hand to matplotlib is compared with the contour's closed polyline, samples, design conditions, model.pdf, dependence-function values and per-interval estimates; read_ec_benchmark_dataset is checked on synthetic benchmark-format files of 1..1e4 rows.",
+    note="trusted: matplotlib Agg (what reaches Axes.plot/scatter/contour/hist is what is drawn), pandas only as the system under test"),
 }
 LEVEL = {"C18": "fault_enumeration"}
 
